@@ -121,7 +121,8 @@ class Runner(object):
 
     def __init__(self, cfg):
         self.cfg = cfg
-        self.sim = Sim(timeout_ms=cfg["timeout_ms"], disconnect_on_timeout=cfg["dot"], hosts=[tuple(h) for h in cfg["hosts"]], shuffle_seed=cfg["shuffle_seed"])
+        self.sim = Sim(timeout_ms=cfg["timeout_ms"], disconnect_on_timeout=cfg["dot"], hosts=[tuple(h) for h in cfg["hosts"]], shuffle_seed=cfg["shuffle_seed"],
+                       hold_closes=cfg.get("hold", False), cancel_style=cfg.get("cancel_style", "plain"))
         self.ntag = 0
         self.closed = False
 
@@ -191,7 +192,7 @@ class Runner(object):
         if op == "srtc":
             return s.api_srtc(cmd[1], None if cmd[2] is None else Fraction(cmd[2]))
         if op == "cancel":
-            if cmd[1] in s.ops and s.ops[cmd[1]].get("d") is not None:
+            if cmd[1] in s.ops and s.ops[cmd[1]].get("d") is not None and not s.ops[cmd[1]].get("is_close"):
                 s.api_cancel(cmd[1])
             return None
         if op == "close":
@@ -217,6 +218,11 @@ class Runner(object):
             if cs:
                 s.drop(cs[cmd[1] % len(cs)])
             return None
+        if op == "notify":
+            hs = s.held()
+            if hs:
+                s.notify(hs[cmd[1] % len(hs)])
+            return None
         if op == "advance":
             return s.advance(Fraction(cmd[1]))
         raise ValueError(op)
@@ -228,10 +234,14 @@ class Runner(object):
 def gen_cfg(rng, focus):
     hosts = [["boot", 9092]] if rng.random() < 0.6 else [["ba", 9092], ["bb", 9093], ["bc", 9092]][: rng.randrange(2, 4)]
     return {
-        "timeout_ms": rng.choice([500, 1000, 2500, 10000]),
+        "timeout_ms": rng.choice([500, 1000, 2500, 10000, 40000]),
         "dot": rng.random() < 0.5,
         "hosts": hosts,
         "shuffle_seed": rng.randrange(1 << 30),
+        # connection-closed notifications delivered only on command (any order, arbitrarily late)
+        "hold": rng.random() < (0.6 if focus == "c20" else 0.35),
+        # how the endpoint reports a cancelled connect (Twisted's TCP endpoints: ConnectingCancelledError)
+        "cancel_style": rng.choice(["plain", "connecting"]),
     }
 
 
@@ -253,7 +263,7 @@ def generate(rng, focus="c07", nsteps=None, prefix=None, cfg=None):
         cmds.append(cmd)
         run.run(cmd)
     nsteps = nsteps or rng.randrange(8, 45)
-    live = lambda: [o for o, v in run.sim.ops.items() if v.get("result") is None and v.get("d") is not None]
+    live = lambda: [o for o, v in run.sim.ops.items() if v.get("result") is None and v.get("d") is not None and not v.get("is_close")]
     p_close = {"c20": 0.06, "c11": 0.01}.get(focus, 0.015)
     p_adv = {"c11": 0.25, "c20": 0.08}.get(focus, 0.08)
     p_cancel = 0.05
@@ -268,9 +278,13 @@ def generate(rng, focus="c07", nsteps=None, prefix=None, cfg=None):
             cmd = None
             if run.closed:
                 after_close += 1
-                if after_close > 8:
+                if after_close > 8 and not sim.held():
                     break
-            if r < p_close and not run.closed and i > 2:
+                if after_close > 30:
+                    break
+            # a broker client closed by a refresh whose connection has not reported closed yet: close now, often
+            refresh_close_pending = (not run.closed and any(getattr(bc, "_dDown", None) is not None and not bc._dDown.called for bc in sim.bcs))
+            if not run.closed and i > 2 and (r < p_close or (refresh_close_pending and r < 0.35)):
                 cmd = ["close"]
             elif r < p_close + p_cancel and live():
                 cmd = ["cancel", rng.choice(live())]
@@ -284,12 +298,29 @@ def generate(rng, focus="c07", nsteps=None, prefix=None, cfg=None):
                 else:
                     dt = Fraction(rng.choice([1, 4, 8, 20, 40, 80, 240]), 8)  # dyadic: float clock arithmetic stays exact
                 cmd = ["advance", "%d/%d" % (dt.numerator, dt.denominator)]
+            elif sim.held() and rng.random() < (0.25 if not run.closed else 0.5):
+                cmd = ["notify", rng.randrange(len(sim.held()))]
             elif pend and rng.random() < 0.75:
                 cmd = ["accept" if rng.random() < 0.85 else "refuse", rng.randrange(len(pend))]
             elif outst and rng.random() < 0.8:
                 j = rng.randrange(len(outst))
                 cmd = ["reply", j, reply_spec(rng, cluster, outst[j][3], honest=rng.random() < 0.8)]
-            elif rng.random() < 0.08:
+            elif rng.random() < (0.2 if focus == "c20" else 0.08):
+                if focus == "c20" and len(cluster.brokers) > 1 and rng.random() < 0.5:
+                    # remove a broker the client is connected to, if any
+                    conn_nodes = [bc.node_id for bc in sim.bcs if bc.proto is not None and bc._dDown is None and bc.node_id in cluster.brokers]
+                    if conn_nodes:
+                        victim = rng.choice(conn_nodes)
+                        del cluster.brokers[victim]
+                        rest = sorted(cluster.brokers)
+                        for t in cluster.topics:
+                            for pp in cluster.topics[t]:
+                                if cluster.topics[t][pp] == victim:
+                                    cluster.topics[t][pp] = rng.choice(rest)
+                        for g in cluster.groups:
+                            if cluster.groups[g] == victim:
+                                cluster.groups[g] = rng.choice(rest)
+                        continue
                 cluster.mutate(rng)
                 continue
             elif rng.random() < 0.05 and [c for c in sim.net.conns if not c.closed]:
@@ -297,7 +328,7 @@ def generate(rng, focus="c07", nsteps=None, prefix=None, cfg=None):
             else:
                 k = rng.random()
                 if k < 0.22 or (not sim.client._brokers and k < 0.6):
-                    asked = rng.sample(CC.TOPICS, rng.randrange(0, 3))
+                    asked = rng.sample(CC.TOPICS, rng.randrange(0, 3)) if (focus != "c20" or rng.random() < 0.5) else []
                     cmd = ["load", asked]
                 elif k < 0.75:
                     api = rng.choice(APIS)
